@@ -501,7 +501,7 @@ def run_case(case, rec):
             mesh2 = [tuple(m_) for m_ in mesh2]
             prods = np.sort(np.array([np.prod(w_) for w_ in itertools.product(*[np.asarray(m_[2], float) for m_ in mesh2[2:2 + cinfo.parameters.npars]])]))
             gaps = [(prods[j_ + 1]/prods[j_], j_) for j_ in range(len(prods)//4, 3*len(prods)//4) if prods[j_] > 0]
-            if gaps:
+            if gaps and max(gaps)[0] > 1.3:       # (flat distributions give equal products: no cutoff can sit between them)
                 _g, j0 = max(gaps)
                 cut2 = float(math.sqrt(prods[j0]*prods[j0 + 1]))
                 ref2 = formula(defn, cinfo, mesh2, q, dim, cut2, mode)
